@@ -399,6 +399,21 @@ func productMemoRule(P *Program, R *Report) {
 				}
 			}
 		}
+		if !keyed {
+			// the same as a question over paths (a named boolean, a negated disjunction, a switch): every path to
+			// this return established the key equality
+			q := (&MustPass{P: P, NoInterproc: true, Match: func(a Atom) bool {
+				a = normAtom(a)
+				bo, ok := a.V.(*ssa.BinOp)
+				if !ok {
+					return false
+				}
+				dx, dy := desc(bo.X), desc(bo.Y)
+				eq := (bo.Op == token.EQL && a.Want == True) || (bo.Op == token.NEQ && a.Want == False)
+				return eq && ((dx == "arg#1" && strings.HasPrefix(dy, upd+".")) || (dy == "arg#1" && strings.HasPrefix(dx, upd+".")))
+			}}).MustReach(fn, ret)
+			keyed = q.Holds
+		}
 		R.decide(rule, kProduct+":cached-return@"+fmt.Sprintf("b%d", ret.Block().Index), "the cached product is returned only when it was computed for the requested `from`", keyed, "controlling conditions: "+strings.Join(conds, "; "), P.Pos(ret.Pos()))
 	}
 	R.decide(rule, kProduct+":cache", "the function has a cached path (memoisation present and inspected)", nCached >= 1, fmt.Sprintf("%d cached returns", nCached), P.Pos(fn.Pos()))
